@@ -33,6 +33,13 @@ def extract_tables(repo):
     extra = set(real._status_map) - set(STATUSES)
     if extra:
         raise ValueError('_status_map has unknown statuses %r' % sorted(extra))
+    # the status alphabets of the generators are None + STATUSES: the code's STATES table must not have a member they lack
+    extra = set(real.STATES) - set(STATUSES) - {None}
+    if extra:
+        raise ValueError('STATES has members the status vocabulary lacks: %r' % sorted(extra, key=str))
+    missing = set(STATUSES) - set(real.STATES)
+    if missing:
+        raise ValueError('the status vocabulary has members that are not in STATES: %r' % sorted(missing))
     buckets, counted = [], []
     for s in STATUSES:
         r = StreamSummary()
